@@ -131,7 +131,8 @@ func (g *c09gen) grow(c *gt_c09, n int) {
 	g.size[gtPI(c)] += c09AnswerBound(c) * n
 }
 
-var c09Consts = []*gt_c09{ga("a"), ga("b"), gi(1), gi(2)}
+var c09Consts = []*gt_c09{ga("a"), ga("b"), gi(1), gi(2), ga("a"), ga("b"), gi(1), gi(2),
+	gtList(ga("a"), gc("k", ga("b"))), gtList(gc("k", gi(1)), gc("k", ga("a"))), gc("k", ga("a"))}
 
 func (g *c09gen) constant() *gt_c09 { return pick(g.r, c09Consts) }
 
@@ -415,7 +416,7 @@ func (g *c09gen) rep() string {
 	if g.r.Intn(20) < 11 {
 		return ""
 	}
-	return fmt.Sprintf("@%d", 1+g.r.Intn(5))
+	return fmt.Sprintf("@%d", 1+g.r.Intn(6))
 }
 
 // withRep puts a representation mode behind the operation word of a command
@@ -865,6 +866,46 @@ func c09Represent(m int, t engine.Term) (pre []engine.Term, arg engine.Term) {
 	}
 	rule, isRule := t.(engine.Compound)
 	isRule = isRule && rule.Functor().String() == ":-" && rule.Arity() == 2
+	if m == 6 {
+		// 6 DEEP: every list cell chain becomes a slice-backed list (what the reader builds) and every atomic
+		//   leaf below the arguments of the head is reached through a variable   V = b, op(p([a, k(V)]))
+		var pre []engine.Term
+		var walk func(t engine.Term, depth int) engine.Term
+		walk = func(t engine.Term, depth int) engine.Term {
+			switch x := t.(type) {
+			case engine.Compound:
+				var elems []engine.Term
+				it := engine.ListIterator{List: x}
+				for it.Next() {
+					elems = append(elems, it.Current())
+				}
+				if it.Err() == nil && len(elems) > 0 {
+					for k := range elems {
+						elems[k] = walk(elems[k], depth+1)
+					}
+					return engine.List(elems...)
+				}
+				args := make([]engine.Term, x.Arity())
+				for k := range args {
+					args[k] = walk(x.Arg(k), depth+1)
+				}
+				return x.Functor().Apply(args...)
+			case engine.Atom, engine.Integer:
+				if depth >= 2 {
+					v := engine.NewVariable()
+					pre = append(pre, eq(v, t))
+					return v
+				}
+			}
+			return t
+		}
+		if isRule {
+			h := walk(rule.Arg(0), 0)
+			return pre, compound(":-", h, rule.Arg(1))
+		}
+		a := walk(t, 0)
+		return pre, a
+	}
 	switch m {
 	case 1:
 		return whole()
